@@ -4,4 +4,5 @@ CONSTANTS
   SciLen = 2
 INVARIANT InvTolerance
 INVARIANT InvReturns
+INVARIANT InvRepFree
 CHECK_DEADLOCK FALSE
